@@ -21,7 +21,9 @@ TRUSTED = [
     "np.lexsort is a stable lexicographic sort (last key primary); modelled by a stable insertion sort",
     "integer-valued float32/float64 below 2^24 are exact; the sampling delay k/n_cycles is compared through its "
     "numerator k, recovered with the same float64 division",
-    "the regex tokeniser of the map strings and read_meta_data are exercised (through files) but not modelled",
+    "the regex tokeniser is modelled as a deterministic scanner (Scan.v; codec theorem C08_parse_print_map) and "
+    "compared with _map_channels_from_meta on printed and malformed map strings; read_meta_data is exercised "
+    "(through files) but not modelled",
     "harness/pC08.py generator, SpikeGLX-syntax printer, canonicaliser and oracle",
     "extraction (Require Extraction, ExtrOcamlBasic only), harness/driver.ml, ocamlfind ocamlopt; a sample of the "
     "same cases is re-evaluated by the kernel (vm_compute)",
@@ -340,14 +342,18 @@ def fixture_pairs(ctx):
 
 
 def run(ctx):
-    common.proof_obligations(ctx, whitelist=[])
+    # Adc.v holds the exhaustive vm_compute sweeps of the ADC loop (4 x 384 x 384): compiled and kernel-checked by
+    # coqc in the build; the thorough tier's coqchk (no VM, would take tens of minutes) takes that module as given
+    # and re-checks everything else (Canon.v included, about 75 s)
+    common.proof_obligations(ctx, whitelist=[], coqchk_admit=["IBL.C08.Adc"])
     logging.getLogger("ibllib").setLevel(logging.ERROR)    # "returning defaults" warnings of the no-map cases
     rng = ctx.rng
     tdir = common.tmpdir("C08_")
     inputs, outputs, descr = [], [], []
     dist = {"tables": 0, "shank_map": 0, "geom_map": 0, "no_map": 0, "split": 0, "n_le_12": 0, "n_ge_276": 0,
             "already_sorted": 0, "gen": {g: 0 for g in GEN_CODE}, "kinds": {}, "subset_offset": 0,
-            "trace_header": 0, "adc_shifts": 0, "rcxy": 0}
+            "trace_header": 0, "adc_shifts": 0, "rcxy": 0, "map_texts": 0, "map_texts_malformed": 0,
+            "map_texts_valueerror": 0, "map_texts_ambiguous_skipped": 0}
     nontrivial = set()
     samples = []
     evaluations = 0
@@ -357,7 +363,7 @@ def run(ctx):
         # ---------------- geometry_from_meta & friends ----------------
         tables = []
         kinds = ["block", "random", "random", "swaps", "reversed", "fewrows", "interleaved"]
-        ntab = 1500 if ctx.thorough() else 110
+        ntab = 5000 if ctx.thorough() else 110
         for t in range(ntab):
             gen = rng.choice(["NP1", "NP1", "NP2.1", "NP2.4", "NP2.4", "NPultra"])
             kind = rng.choice(kinds)
@@ -484,6 +490,7 @@ def run(ctx):
                 evaluations += 1
         # ---------------- trace_header / split_trace_header / adc_shifts / rc2xy / xy2rc ----------------
         evaluations += run_layouts(ctx, inputs, outputs, descr, dist, tdir)
+        evaluations += run_parser(ctx, inputs, outputs, descr, dist)
         common.correspondence(ctx, PROP, HEADER, inputs, outputs, lambda i: descr[i], n_kernel=60)
     finally:
         shutil.rmtree(tdir, ignore_errors=True)
@@ -639,11 +646,101 @@ def run_layouts(ctx, inputs, outputs, descr, dist, tdir):
     return nev
 
 
+def parse_impl(text, key):
+    """_map_channels_from_meta on one map string -> flat encoding of Run.v mode 4."""
+    import spikeglx
+    try:
+        cm = spikeglx._map_channels_from_meta({key: text})
+    except ValueError:
+        return [0]
+    names = ["shank", "col", "row", "flag"] if key == "snsShankMap" else ["shank", "x", "y", "flag"]
+    if all(v is None for v in cm.values()):      # "key exists but holds no entry"
+        return [1, 0]
+    cols = [ints(cm[k]) for k in names]
+    out = [1, len(cols[0])]
+    for row in zip(*cols):
+        out += list(row)
+    return out
+
+
+def run_parser(ctx, inputs, outputs, descr, dist):
+    """The tokeniser of the map strings: printed tables must parse back to the table (codec clause);
+    malformed neighbours are compared with the model only."""
+    import re
+    rng = ctx.rng
+    alphabet = "0123456789:::(),)( "
+    texts = []
+    for gen in GEN_CODE:
+        for enc in ((0,) if gen == "NPultra" else (0, 1)):
+            for _ in range(12 if ctx.thorough() else 3):
+                n = rng.randrange(0, 9)
+                sites = gen_sites(rng, gen, max(n, 1), "random")[:n]
+                entries = [geom_entry(gen, s) if enc == 1 else s for s in sites]
+                text = map_text(gen, enc, entries).split("=", 1)[1]
+                texts.append((text, entries, enc))
+                for _ in range(6 if ctx.thorough() else 3):          # malformed neighbours
+                    t = list(text)
+                    for _ in range(rng.randrange(1, 4)):
+                        k = rng.randrange(len(t) + 1)
+                        op = rng.random()
+                        if op < 0.4 and k < len(t):
+                            del t[k]
+                        elif op < 0.8:
+                            t.insert(k, rng.choice(alphabet))
+                        elif k < len(t):
+                            t[k] = rng.choice(alphabet)
+                    texts.append(("".join(t), None, enc))
+    for t in ["", "()", ":::", "1:2:3", "1:2:3:4", "1:2:3:4:5:6:7:8", "(1:2:3:4)(5:6:7:)", "a1:2:3:4b",
+              "0:0:0:1(0:1:0:1)", "12:34:56:78:", "(NP1010,1,0,70)", "(1,2,480)", "::1:2:3:4", "1::2:3",
+              "007:08:09:010", "(1,2,480)(0:0:0:1)", "1:2:3:4\n5:6:7:8", "(0:0:0:1) (0:1:0:1)", "9999999:0:0:1"]:
+        texts.append((t, None, rng.choice([0, 1])))
+    nev = 0
+    for text, entries, enc in texts:
+        if any(len(r) > 7 for r in re.findall("[0-9]+", text)) or len(text) > 400:
+            continue        # beyond exact float32 integers / keep kernel cases small
+        if entries is None and re.findall("[0-9]*:[0-9]*:[0-9]*:[0-9]*", text) != \
+                re.findall("[0-9]+:[0-9]+:[0-9]+:[0-9]+", text):
+            # a field is empty somewhere: whether that is an error or a skipped entry is not fixed by the
+            # property (well-formed tables only); such texts are not compared
+            dist["map_texts_ambiguous_skipped"] += 1
+            continue
+        key = "snsShankMap" if enc == 0 else "snsGeomMap"
+        d = {"fn": "_map_channels_from_meta", "key": key, "text": text}
+        try:
+            out = parse_impl(text, key)
+        except Exception as e:
+            if entries is not None:
+                ctx.fail("parsing a well-formed map raised %r" % (e,), d, {"clause": "parse"})
+            else:
+                ctx.disagree("parsing raised %r (the model knows only ValueError)" % (e,), d)
+            continue
+        if entries is not None:
+            exp = [1, len(entries)] + [int(x) for e_ in entries for x in e_]
+            if out != exp:
+                ctx.fail("a printed site table does not parse back to the table", d, {"clause": "parse"})
+        inputs.append([4] + [ord(c) for c in text])
+        outputs.append(out)
+        descr.append(d)
+        nev += 1
+        dist["map_texts"] += 1
+        dist["map_texts_malformed"] += entries is None
+        dist["map_texts_valueerror"] += out == [0]
+    return nev
+
+
 def replay(ctx, data):
     inp = data.get("input") or (data.get("correspondence_disagreements") or [{}])[0].get("input")
     if not inp:
         print(json.dumps(data, indent=1)[:3000])
         return 1
+    if inp.get("fn") == "_map_channels_from_meta":
+        out = parse_impl(inp["text"], inp["key"])
+        print("text:", repr(inp["text"]))
+        print("implementation:", out)
+        ids = common.coq_mismatches(PROP, HEADER, [common.flat_cases_term(
+            0, [4] + [ord(c) for c in inp["text"]], out)])
+        print("kernel-evaluated model agrees with implementation:", not ids)
+        return 1 if ids else 0
     if "sites" not in inp:
         print("input:", inp)
         print("re-run the call named in the input on the implementation (harness/pC08.py run_layouts)")
